@@ -1,5 +1,6 @@
 import Mouette.Model.Proto
 import Mouette.Model.FrameField
+import Mouette.Model.FrameFieldV
 /-
 Protocol front-end for C18 (one request = one complete case, stateless).
 
@@ -9,6 +10,13 @@ Protocol front-end for C18 (one request = one complete case, stateless).
      INIT  faces: <k> (T c.re c.im r)*                vertices: <guarded 0|1> <k> (v u.re u.im)*
      SOLVE <0|1> [ <n> (z.re z.im)*   <nfree> (res.re res.im)*   <n> r* ]
      IDX   <0|1> [ <nv> defect*  <nF> theta*  <nE> (a b T1|N T2|N a1 a2)* ]
+
+  optionally followed (vertex-based runs, round 2) by
+     VX <smooth_normals 0|1> INITV <k> (v u.re u.im)*  <k> featV*  <n> r*
+        IDXV <n> theta*  <k> (u v t)*  <nE> (a b)*  <nF> (A B C)*
+  with the extra reply sections
+     initv <n> (re im)*
+     idxv <nE> rot* ; <nF> curvature* ; <nF> faceAngle* ; <nF> order*faceAngle ; total ; sumCurvature ; borderTerm ; wf
 
 reply (sections separated by ` | `):
      lap <k> (a b re im)* ; hermDev
@@ -132,9 +140,59 @@ def answer (r : Req) : String :=
         ++ " ; " ++ fmtRat (sumTo defect nv) ++ " ; " ++ fmtRats thS ++ " ; " ++ fmtRats gS ++ " ; " ++ fmtRats js
   " | ".intercalate [lapS, partS, initS, solveS, idxS]
 
+/-! ### vertex-based extension (round 2) -/
+open Mouette.FFV in
+structure ReqV where
+  smooth : Bool
+  contribs : List (Nat × Cpx)
+  featV : List Nat
+  rs : List Rat
+  theta : List Rat
+  ts : List ((Nat × Nat) × Rat)
+  edges : List (Nat × Nat)
+  faces : List Mouette.FFV.Face
+
+def reqV : P ReqV := do
+  let t ← tok
+  if t ≠ "VX" then failure
+  let smooth ← bool
+  let contribs ← listOf (do let v ← nat; let u ← cpx; pure (v, u))
+  let featV ← listOf nat
+  let rs ← listOf rat
+  let theta ← listOf rat
+  let ts ← listOf (do let u ← nat; let v ← nat; let t ← rat; pure ((u, v), t))
+  let edges ← listOf (do let a ← nat; let b ← nat; pure (a, b))
+  let faces ← listOf (do let a ← nat; let b ← nat; let c ← nat; pure ({ A := a, B := b, C := c } : Mouette.FFV.Face))
+  pure { smooth, contribs, featV, rs, theta, ts, edges, faces }
+
+open Mouette.FFV in
+def answerV (order n : Nat) (r : ReqV) : String :=
+  let init := initVertsFull order n r.smooth r.contribs r.featV r.rs
+  let t := trOf r.ts
+  let ves : List VEdge := r.edges.map (fun e =>
+    { a := e.1, b := e.2, thA := r.theta.getD e.1 0, aA := t e.1 e.2, thB := r.theta.getD e.2 0, aB := t e.2 e.1 })
+  let res := ves.map (VEdge.toRE order)
+  let curv := r.faces.map (curvature t)
+  let ang := r.faces.map (faceAngle res t)
+  let total := sumF (faceAngle res t) r.faces
+  let sc := sumF (curvature t) r.faces
+  "initv " ++ fmtCpxs init ++ " | idxv " ++ fmtRats (res.map (·.r)) ++ " ; " ++ fmtRats curv ++ " ; " ++ fmtRats ang
+    ++ " ; " ++ fmtRats (ang.map (fun a => (order : Rat) * a)) ++ " ; " ++ fmtRat total ++ " ; " ++ fmtRat sc
+    ++ " ; " ++ fmtRat (borderTerm res r.faces) ++ " ; " ++ fmtBool (uniqueEdges res)
+
+def reqX : P (Req × Option ReqV) := do
+  let r ← req
+  let rest ← get
+  match rest with
+  | [] => pure (r, none)
+  | _ => do let v ← reqV; pure (r, some v)
+
 def handle (ts : List String) : Option String :=
   match ts with
-  | "ff" :: r => (runP req r).map answer
+  | "ff" :: r => (runP reqX r).map (fun p =>
+      match p.2 with
+      | none => answer p.1
+      | some v => answer p.1 ++ " | " ++ answerV p.1.order p.1.n v)
   | _ => none
 
 end Mouette.DriveC18
